@@ -314,21 +314,49 @@ def load_all_contracts(cdir):
 
 # --------------------------------------------------------------------------- splicing
 
-def _anchor_regex(anchor):
-    parts = [re.escape(p) for p in anchor.split()]
-    return re.compile(r'\s*'.join(_relax(p) for p in parts))
+class _TokMatch:
+    """result of a token-level anchor match: start() / end() are character positions in the body"""
+    def __init__(self, s, e):
+        self._s, self._e = s, e
+
+    def start(self):
+        return self._s
+
+    def end(self):
+        return self._e
 
 
-def _relax(p):
-    return p
+def _norm_tokens(text):
+    """code tokens of `text` without TRAILING COMMAS (a comma directly followed by `)`, `]` or `}`): rustfmt adds / removes them when it
+    re-flows a call over several lines, and they never change the meaning of a call, an array, a struct literal or a match"""
+    ct = code_tokens(tokenize(text))
+    out = []
+    for i, t in enumerate(ct):
+        if t.text == ',' and i + 1 < len(ct) and ct[i + 1].text in (')', ']', '}'):
+            continue
+        out.append(t)
+    return out
 
 
 def _find_anchor(body, anchor, occ, cname):
-    rx = _anchor_regex(anchor)
-    ms = [m for m in rx.finditer(body) if not _inside_comment_or_str(body, m.start())]
-    if len(ms) < occ:
+    """anchors are matched on the TOKEN sequence (white space, line breaks, comments and trailing commas are irrelevant)"""
+    bt = _norm_tokens(body)
+    at = [t.text for t in _norm_tokens(anchor)]
+    if not at:
+        raise ExtractError(f'contract {cname}: empty anchor')
+    n = len(at)
+    texts = [t.text for t in bt]
+    hits = []
+    i = 0
+    while i + n <= len(texts):
+        if texts[i:i + n] == at:
+            hits.append((bt[i].pos, bt[i + n - 1].end))
+            i += n
+        else:
+            i += 1
+    if len(hits) < occ:
         raise ExtractError(f'contract {cname}: anchor `{anchor}` (occurrence {occ}) not found (lost anchor)')
-    return ms[occ - 1]
+    return _TokMatch(*hits[occ - 1])
 
 
 def _inside_comment_or_str(body, pos):
